@@ -28,6 +28,8 @@ def c09_nontrivial(case, v):
     return k == "dom" and len(set(case["os"])) > 1
 
 
+CLAIMED = True
+
 PROP = dict(
     proof_modules=["VrpProofs.C09"], model_modules=["VrpModel.C09"], drv="drv_c09", bin="c09",
     nontrivial=c09_nontrivial,
